@@ -344,6 +344,35 @@ class FStrings(ast.NodeTransformer):
         return ast.copy_location(ast.JoinedStr(values=vals), node)
 
 
+class WhileTrue(ast.NodeTransformer):
+    """`while C: BODY` (no else clause) becomes `while True: if not C: break; BODY`"""
+    def visit_While(self, node):
+        self.generic_visit(node)
+        if node.orelse or (isinstance(node.test, ast.Constant) and node.test.value is True):
+            return node
+        guard = ast.If(test=ast.UnaryOp(op=ast.Not(), operand=node.test), body=[ast.Break()], orelse=[])
+        node.test = ast.Constant(value=True)
+        node.body = [guard] + node.body
+        return node
+
+
+class AugAssignExpand(ast.NodeTransformer):
+    """`x += K` / `x -= len(..)` on a plain name or a self attribute with an int constant / len() operand becomes `x = x + K`"""
+    def visit_AugAssign(self, node):
+        self.generic_visit(node)
+        t = node.target
+        ok_t = isinstance(t, ast.Name) or (isinstance(t, ast.Attribute) and isinstance(t.value, ast.Name))
+        v = node.value
+        ok_v = (isinstance(v, ast.Constant) and isinstance(v.value, int)) or (
+            isinstance(v, ast.Call) and isinstance(v.func, ast.Name) and v.func.id == "len")
+        if not (ok_t and ok_v and isinstance(node.op, (ast.Add, ast.Sub))):
+            return node
+        import copy as _c
+        load = _c.deepcopy(t)
+        load.ctx = ast.Load()
+        return ast.copy_location(ast.Assign(targets=[t], value=ast.BinOp(left=load, op=node.op, right=v)), node)
+
+
 class OSErrorAliases(ast.NodeTransformer):
     """Python 3 aliases of OSError spelled as OSError: IOError, EnvironmentError, socket.error (same class objects)"""
     def visit_Name(self, n):
@@ -358,7 +387,7 @@ class OSErrorAliases(ast.NodeTransformer):
         return n
 
 
-MODES = {"tupleassign": TupleAssign, "withlock": WithLock, "flipcmp": FlipCmp, "earlyret": EarlyRet, "elseify": Elseify, "swapif": SwapIf, "demorgan": DeMorgan, "tmpvar": TmpVar}
+MODES = {"whiletrue": WhileTrue, "augassign": AugAssignExpand, "tupleassign": TupleAssign, "withlock": WithLock, "flipcmp": FlipCmp, "earlyret": EarlyRet, "elseify": Elseify, "swapif": SwapIf, "demorgan": DeMorgan, "tmpvar": TmpVar}
 
 
 def transform(text, mode):
